@@ -506,6 +506,25 @@ def _instance_tabulate(ctx) -> bool | None:
         import zoneinfo
         zi = zoneinfo.ZoneInfo("Europe/Paris")
         values += [D(2021, 3, 28, 3, 30, tzinfo=zi), D(2021, 10, 31, 2, 30, tzinfo=zi, fold=1), D(2021, 10, 31, 2, 30, tzinfo=zi), D(2021, 1, 15, 8, 0, tzinfo=zi)]
+
+        class PytzLike(_dt.tzinfo):         # the pytz kind: one tzinfo object per offset of the zone, the occurrence is in the object, not in fold
+            zone = "Europe/Paris"
+
+            def __init__(self, hours):
+                self._off = _dt.timedelta(hours=hours)
+
+            def localize(self, d, is_dst=False):
+                return d.replace(tzinfo=self)
+
+            def utcoffset(self, d):
+                return self._off
+
+            def dst(self, d):
+                return self._off - H
+
+            def tzname(self, d):
+                return "CEST" if self._off > H else "CET"
+        values += [D(2021, 10, 31, 2, 30, tzinfo=PytzLike(1)), D(2021, 10, 31, 2, 30, tzinfo=PytzLike(2)), D(2021, 7, 1, 12, 0, tzinfo=PytzLike(2)), D(2021, 1, 15, 8, 0, tzinfo=PytzLike(1))]
     except Exception:       # noqa: BLE001
         pass
     bad, n = [], 0
@@ -533,7 +552,7 @@ def _instance_tabulate(ctx) -> bool | None:
                     "pendulum": Stub(_safe_timezone=lambda *a, **k: minieval.call(safe, list(a), k, {**ifuncs, "$globals": dict(iglob)}))}
             got = minieval.call(fn, [cls, x], {}, {**funcs, "$globals": glob})
             n += 1
-            label = f"instance({x.isoformat()}" + (f" fold={x.fold}" if x.fold else "") + f" [{'a nameless tzinfo with an offset change' if x.tzinfo is nz else type(x.tzinfo).__name__}])"
+            label = f"instance({x.isoformat()}" + (f" fold={x.fold}" if x.fold else "") + f" [{'a nameless tzinfo with an offset change' if x.tzinfo is nz else 'the pytz kind: the offset is in the tzinfo object' if hasattr(x.tzinfo, 'localize') else type(x.tzinfo).__name__}])"
             if not getattr(got, "_created", False) or len(made) != 1:
                 raise core.Unsupported(f"{label} does not return one create(...) call")
             b = made[0]
@@ -555,6 +574,9 @@ def _instance_tabulate(ctx) -> bool | None:
            "the original's wall clock fields in a zone that gives them the original's UTC offset"), dm.loc(fn))
     if not bad:
         ctx.established(("AWARE-INSTANT",), "DateTime.instance", "INSTANCE.tabulated")
+        if zi is not None:
+            # every kind of foreign tzinfo _safe_timezone distinguishes (fixed, zoneinfo, the pytz kind, nameless) came through with its instant and offset
+            ctx.established(("AWARE-INSTANT",), "_safe_timezone/", "INSTANCE.tabulated")
     return not bad
 
 
